@@ -11,7 +11,7 @@ AtEnd(R, j) == j = Len(R)
 StateEv(old, new) == [k |-> "state", old |-> old, new |-> new]
 DiscEv == [k |-> "disc", old |-> "", new |-> ""]
 
-AInit(bps0) == [st |-> St("Launching", 0), ix |-> 1, bps |-> bps0, last |-> 0, m |-> "read", conn |-> TRUE,
+AInit(bps0) == [st |-> St("Launching", 0), ix |-> 1, bps |-> bps0, cbps |-> bps0, last |-> 0, m |-> "read", conn |-> TRUE,
                 sp |-> "idle", tmp |-> 0, rix |-> 0, kind |-> "", chan |-> <<>>]
 
 (* ------------------------------ machine thread ------------------------------ *)
@@ -19,13 +19,18 @@ MReadEn(s) == s.m = "read" /\ s.conn
 MRead(s)   == [s EXCEPT !.m = IF s.st.k = "Running" THEN "check" ELSE "read"]
 
 MCheckEn(s) == s.m = "check"
-MCheckHit(R, s) == s.last # Pc(R, s.ix) /\ Pc(R, s.ix) \in s.bps
-MCheck(R, s) ==
+(* B = the breakpoint list the check looks at: the shared list s.bps (locked for every instruction) in the code as   *)
+(* written; the hypothetical deviation "StaleBpCopy" of Debugger.tla passes a thread-local copy instead.            *)
+MCheckHitWith(R, s, B) == s.last # Pc(R, s.ix) /\ Pc(R, s.ix) \in B
+MCheckHit(R, s) == MCheckHitWith(R, s, s.bps)
+MCheckWith(R, s, B) ==
   LET pc == Pc(R, s.ix) IN
   IF s.last = pc THEN [s EXCEPT !.m = "exec"]
-  ELSE IF pc \in s.bps
+  ELSE IF pc \in B
        THEN [s EXCEPT !.last = pc, !.st = St("Stopped", pc), !.chan = Append(@, StateEv(s.st.k, "Stopped")), !.m = "read"]
        ELSE [s EXCEPT !.last = pc, !.m = "exec"]
+
+MCheck(R, s) == MCheckWith(R, s, s.bps)
 
 MExecEn(s) == s.m = "exec"
 MExecRuns(s, dev) == "PauseRace" \in dev \/ s.st.k = "Running"
